@@ -109,9 +109,12 @@ func (t *runTarget) Evaluate(engine runner.Engine) error {
 	}
 
 	// Otherwise, evaluate the target.
+	verifPoint("target.body.before", label.String())
 	data, changed, err := t.target.evaluate()
+	verifPoint("target.body.after", label.String())
 	if err != nil {
 		proj.events.TargetFailed(label, err)
+		verifPoint("target.record.failure", label.String())
 
 		// If the target fails, record that it must be re-run on the next build.
 		proj.saveTargetInfo(label, targetInfo{
@@ -127,6 +130,7 @@ func (t *runTarget) Evaluate(engine runner.Engine) error {
 	if changed {
 		t.data = data
 	}
+	verifPoint("target.record.success", label.String())
 	err = proj.saveTargetInfo(label, targetInfo{
 		Doc:          t.target.Doc(),
 		Dependencies: depData,
